@@ -53,6 +53,8 @@ pub(crate) enum K {
     Die,
     Motd,
     Opaque,
+    ReReg,
+    BanExcept,
 }
 
 pub(crate) const NICKS: &[&str] = &["ann", "bob", "cat", "dan", "eve", "fay", "gus", "hal", "root", "ops", "żółw", "ünï", "a", "bobby", "Ann", "BOB"];
@@ -144,6 +146,24 @@ impl<'a> Gen<'a> {
         self.m.conns[c].nick.clone().unwrap_or_default()
     }
     fn pick_nick_pool(&mut self) -> String {
+        if self.r.chance(1, 40) {
+            // nicknames at and beyond the advertised NICKLEN (the server accepts any length); they share a 200-character prefix
+            let base = format!("L{}", "o".repeat(199));
+            return match self.r.below(3) {
+                0 => base,
+                1 => format!("{}y", base),
+                _ => format!("{}{}", base, "z".repeat(30)),
+            };
+        }
+        if self.r.chance(1, 30) && !self.m.users.is_empty() {
+            // a case variant of somebody's nickname: a different nickname for this server (names are case-sensitive)
+            let ex: Vec<String> = self.m.users.keys().cloned().collect();
+            let n = ex[self.r.below(ex.len())].clone();
+            let v = if self.r.chance(1, 2) { n.to_uppercase() } else { n.chars().enumerate().map(|(i, ch)| if i == 0 { ch.to_ascii_uppercase() } else { ch }).collect() };
+            if v != n {
+                return v;
+            }
+        }
         NICKS[self.r.below(std::cmp::min(self.prof.nick_pool, NICKS.len()))].to_string()
     }
     fn pick_chan_pool(&mut self) -> String {
@@ -1092,7 +1112,15 @@ impl<'a> Gen<'a> {
                     };
                     ts.push(t);
                 }
-                let text = self.text();
+                let mut text = self.text();
+                if self.r.chance(1, 80) {
+                    // around the codec's line limit (2000 bytes before the line feed, the CR included)
+                    let head = format!("{} {} :{}", verb, ts.join(","), text).len() + 1;
+                    let want = [1998usize, 1999, 2000, 2001, 2002, 2100][self.r.below(6)];
+                    if want > head {
+                        text.push_str(&"p".repeat(want - head));
+                    }
+                }
                 self.say(c, &format!("{} {} :{}", verb, ts.join(","), text))
             }
             K::Who => {
@@ -1155,6 +1183,106 @@ impl<'a> Gen<'a> {
             K::Stats => {
                 let q = ['u', 'm', 'o', 'l'][self.r.below(4)];
                 self.say(c, &format!("STATS {}", q))
+            }
+            K::ReReg => {
+                // a registered connection repeats registration commands: refused (462) and nothing about it changes
+                let cfgnames: Vec<String> = self.m.cfg.users.iter().map(|u| u.name.clone()).collect();
+                let other_user = self.m.users.values().find(|u| u.nick != me).map(|u| u.user.trim_start_matches('~').to_string());
+                let line = match self.r.below(6) {
+                    0 => "USER spoof 0 * :Spoofed Name".to_string(),
+                    1 if other_user.is_some() => format!("USER {} 0 * :R", other_user.unwrap()),
+                    2 if !cfgnames.is_empty() => format!("USER {} 0 * :R", cfgnames[self.r.below(cfgnames.len())]),
+                    3 => format!("PASS {}", self.m.cfg.password.clone().unwrap_or_else(|| "whatever".into())),
+                    4 => "USER".to_string(),
+                    _ => "USER other 0 * :Other".to_string(),
+                };
+                let mut ok = self.say(c, &line);
+                // ... and it still speaks and shows as itself
+                let t = self.text();
+                let target = match self.pick_chan_of(&me) {
+                    Some(ch) if self.r.chance(2, 3) => ch,
+                    _ => self.pick_user(),
+                };
+                let verb = if self.r.chance(3, 4) { "PRIVMSG" } else { "NOTICE" };
+                ok |= self.say(c, &format!("{} {} :{}", verb, target, t));
+                let regs2 = self.registered_conns();
+                if !regs2.is_empty() {
+                    let o = regs2[self.r.below(regs2.len())];
+                    let l = match self.r.below(3) {
+                        0 => format!("WHOIS {}", me),
+                        1 => format!("WHO {}", me),
+                        _ => format!("USERHOST {}", me),
+                    };
+                    ok |= self.say(o, &l);
+                }
+                ok
+            }
+            K::BanExcept => {
+                // a ban, some exceptions (matching the victim or not), perhaps taken away again - then the victim and
+                // a bystander try to join / speak: exactly the announced lists are enforced
+                let ch = match self.pick_chan_of(&me) {
+                    Some(ch) => ch,
+                    None => return false,
+                };
+                let users: Vec<MUser> = self.m.users.values().filter(|u| u.nick != me).cloned().collect();
+                if users.is_empty() {
+                    return false;
+                }
+                let v = users[self.r.below(users.len())].clone();
+                let by = users[self.r.below(users.len())].clone();
+                let ban = match self.r.below(4) {
+                    0 => "*!*@*".to_string(),
+                    1 => format!("{}!*@*", v.nick),
+                    2 => format!("*!{}@*", v.user),
+                    _ => v.src(),
+                };
+                let mut ok = self.say(c, &format!("MODE {} +b {}", ch, ban));
+                let nexc = self.r.below(4);
+                let mut added: Vec<String> = vec![];
+                for _ in 0..nexc {
+                    let e = match self.r.below(6) {
+                        0 => v.nick.clone(),
+                        1 => format!("{}!*@*", v.nick),
+                        2 => format!("*!{}@*", v.user),
+                        3 => format!("{}!*@*", by.nick),
+                        4 => "nobody!*@*".to_string(),
+                        _ => "*!*@10.20.30.*".to_string(),
+                    };
+                    ok |= self.say(c, &format!("MODE {} +e {}", ch, e));
+                    added.push(e);
+                }
+                let existing: Vec<String> = self.m.chans.get(&ch).map(|x| x.exc.iter().cloned().collect()).unwrap_or_default();
+                if !existing.is_empty() && self.r.chance(1, 2) {
+                    // take some (or all) exceptions away again
+                    let all = self.r.chance(1, 2);
+                    for e in existing.iter() {
+                        if all || self.r.chance(1, 2) {
+                            ok |= self.say(c, &format!("MODE {} -e {}", ch, e));
+                        }
+                    }
+                }
+                for u in [&v, &by] {
+                    let uc = u.conn;
+                    if !self.m.conns.get(uc).map_or(false, |x| x.alive && !x.deaf) {
+                        continue;
+                    }
+                    let member = self.m.chans.get(&ch).map_or(false, |x| x.members.contains_key(&u.nick));
+                    let t = self.text();
+                    if member || self.r.chance(1, 3) {
+                        ok |= self.say(uc, &format!("PRIVMSG {} :{}", ch, t));
+                    } else {
+                        let key = self.m.chans.get(&ch).and_then(|x| x.key.clone());
+                        ok |= self.say(uc, &match key {
+                            Some(k) => format!("JOIN {} {}", ch, k),
+                            None => format!("JOIN {}", ch),
+                        });
+                    }
+                }
+                if self.r.chance(1, 3) {
+                    ok |= self.say(c, &format!("MODE {} +e", ch));
+                    ok |= self.say(c, &format!("MODE {} +b", ch));
+                }
+                ok
             }
             K::Away => {
                 let line = match self.r.below(7) {
